@@ -185,6 +185,22 @@ theorem mac_eq_gen (key msg : Bytes) : Model.Poly1305.mac key msg = macGen key m
     rw [finish_eq_model]
     rfl
 
+/-- `update`'s one length computation, as translated from the source on every run: the end of the run of whole blocks is
+`m.len() − m.len() mod 16` — the very expression of `Model.Poly1305.update` — for EVERY length (no width is involved: in
+particular for inputs of 4 GiB and more, which no run can afford to sweep) -/
+theorem update_full_blocks_end_eq (n : Nat) : Gen.Poly1305.update_full_blocks_end n = n - n % 16 := rfl
+
+/-- … hence a multiple of the block size, and fewer than 16 bytes are left over for the buffer -/
+theorem update_full_blocks_end_spec (n : Nat) :
+    16 ∣ Gen.Poly1305.update_full_blocks_end n ∧ Gen.Poly1305.update_full_blocks_end n ≤ n ∧
+      n - Gen.Poly1305.update_full_blocks_end n < 16 := by
+  rw [update_full_blocks_end_eq]
+  refine ⟨?_, Nat.sub_le _ _, ?_⟩
+  · exact (Nat.dvd_sub_mod n)
+  · have := Nat.mod_lt n (show 0 < 16 by decide); omega
+
+example : Gen.Poly1305.update_full_blocks_end (2 ^ 32 + 16 + 5) = 2 ^ 32 + 16 := by decide
+
 /-- sanity test: RFC 8439 §2.5.2 ("Cryptographic Forum Research Group", 34 bytes: two blocks + a partial one) -/
 example : macGen tKey tMsg
     = [0xa8, 0x06, 0x1d, 0xc1, 0x30, 0x51, 0x36, 0xc6, 0xc2, 0x2b, 0x8b, 0xaf, 0x0c, 0x01, 0x27, 0xa9] := by
